@@ -31,6 +31,7 @@ func LoadVector(v []uint64) {
 	vpos = 0
 	Observed = nil
 	Reached = nil
+	Debugged = nil
 }
 
 func LoadVectorFile(path string) error {
@@ -102,6 +103,12 @@ func Reach(label string) { Reached = append(Reached, label) }
 func Observe(label string, v any) {
 	flatten(label, v)
 }
+
+// Debug records free text for a native replay (printed by bin/replay); ignored by the engine and
+// never compared.
+func Debug(label, text string) { Debugged = append(Debugged, label+": "+text) }
+
+var Debugged []string
 
 func And(a, b bool) bool     { return a && b }
 func Or(a, b bool) bool      { return a || b }
